@@ -126,7 +126,7 @@ func c29JoinProp(c c29JoinCase) ev.Outcome {
 			func(_ execution.ProduceContext, msg execution.MetadataMessage) error { return nil })
 	}()
 	// The verdict is not a stopwatch: the join is called stuck only if it has not returned AND neither input has produced
-	// anything for 15 s (nothing is running any more); a run that is merely slow keeps moving the counters.
+	// anything for 45 s (nothing is running any more); a run that is merely slow keeps moving the counters.
 	var err error
 	returned := false
 	lastB, lastS, since := int64(-1), int64(-1), time.Now()
@@ -138,7 +138,7 @@ func c29JoinProp(c c29JoinCase) ev.Outcome {
 			b, s := atomic.LoadInt64(&bigSent), atomic.LoadInt64(&smallSent)
 			if b != lastB || s != lastS {
 				lastB, lastS, since = b, s, time.Now()
-			} else if time.Since(since) > 15*time.Second {
+			} else if time.Since(since) > 45*time.Second {
 				buf := make([]byte, 1<<20)
 				buf = buf[:runtime.Stack(buf, true)]
 				var mine []string
@@ -150,7 +150,7 @@ func c29JoinProp(c c29JoinCase) ev.Outcome {
 						mine = append(mine, g)
 					}
 				}
-				return ev.Fail("%s join (big input %s: %d records, other input %d records, stop=%s after %d, GOMAXPROCS=%d) has not returned although nothing has moved for 15 s: big input produced %d, other input %d, outputs %d\n%s",
+				return ev.Fail("%s join (big input %s: %d records, other input %d records, stop=%s after %d, GOMAXPROCS=%d) has not returned although nothing has moved for 45 s: big input produced %d, other input %d, outputs %d\n%s",
 					c.Kind, c.BigSide, c.N, c.Small, c.Stop, c.StopAfter, c.Procs, b, s, outputs, strings.Join(mine, "\n\n"))
 			}
 		}
